@@ -129,6 +129,19 @@ def cp_function(prog, chk, f, lib):
                 break
         chk.decide(ok, 'mixture-term', U, name, br, loc, msg,
                    why='w_i * %s(Z_i, %s, error), same record and index' % (callee, ', '.join(scal)))
+        # the value handed back is the sum itself: nothing is applied to the accumulator after the loop
+        res_ok, res_found = bool(it_paths), set()
+        for p in it_paths:
+            if p.ret is None or it.is_zero(p.ret, p):
+                continue
+            rs = p.ret.n.symbols() | p.ret.d.symbols()
+            plain = len(rs) == 1 and p.ret.equals(Rat.sym(list(rs)[0])) and re.match(r'^\w+@L\d+$', list(rs)[0])
+            if not plain:
+                res_ok = False
+                res_found.add(strip_err_text(p.ret.canon())[:120])
+        chk.decide(res_ok, 'mixture-result', U, name, br, loc,
+                   'the result must be the accumulated sum of w_i * %s(Z_i, ...) itself; the function returns %s' % (callee, sorted(res_found)),
+                   why='returns the accumulator unchanged')
         rng = [loop_covers_record(iteration(p).node, p, ctor) for p in it_paths]
         chk.decide(bool(rng) and all(rng), 'all-elements', U, name, br, loc,
                    'the sum must run over every element of the resolved compound: i = 0 .. nElements-1 of the record returned by %s' % ctor,
